@@ -203,6 +203,10 @@ func (b *binder) newEntity(ptrType reflect.Type, tm *typeModel, ki int, vals []s
 	if tm.Requires {
 		if ov := fieldByJSON(s, "own"); ov.IsValid() && ov.Kind() == reflect.Ptr && ov.IsNil() {
 			ov.Set(reflect.New(ov.Type().Elem()))
+			// ... and into entity.Own.Home.ID
+			if hv := fieldByJSON(ov.Elem(), "home"); hv.IsValid() && hv.Kind() == reflect.Ptr && hv.IsNil() {
+				hv.Set(reflect.New(hv.Type().Elem()))
+			}
 		}
 	}
 	return p
@@ -349,6 +353,12 @@ func (b *binder) requiresFn(ft reflect.Type, tm *typeModel, which string) func([
 				own, _ = canonLeaf(o["id"])
 				t, _ := o["tier"].(string)
 				own += "/" + t
+				if h, ok := o["home"].(map[string]any); ok {
+					hid, _ := canonLeaf(h["id"])
+					own += "/" + hid
+				} else {
+					own += "/"
+				}
 			}
 			if fr == nil {
 				key = "<no representation>"
@@ -366,6 +376,11 @@ func (b *binder) requiresFn(ft reflect.Type, tm *typeModel, which string) func([
 				own = canonGo(fieldByJSON(ov.Elem(), "id"))
 				if tv := fieldByJSON(ov.Elem(), "tier"); tv.IsValid() && tv.Kind() == reflect.Ptr && !tv.IsNil() {
 					own += "/" + tv.Elem().String()
+				} else {
+					own += "/"
+				}
+				if hv := fieldByJSON(ov.Elem(), "home"); hv.IsValid() && hv.Kind() == reflect.Ptr && !hv.IsNil() {
+					own += "/" + canonGo(fieldByJSON(hv.Elem(), "id"))
 				} else {
 					own += "/"
 				}
